@@ -64,6 +64,7 @@ pub fn replay(case: &Value) -> Vec<Violation> {
         "issue" | "pipeline" => crate::pipeline::replay_case(case),
         "weak_selection" => c06::replay_weak(case),
         "reused_holder" => c06::replay_reused(case),
+        "c06_foreign_layout" => c06::replay_foreign_layout(case),
         "reused_issuer" | "reused_issuer_sizes" => c05::replay_reused(case),
         "c12_order" => c12::replay_order(),
         "c12_history" => c12::replay_history(case),
